@@ -142,7 +142,7 @@ def run(ctx, out, tier):
         if re.match(r"std::option::Option<&.*dyn blockwatch::block_parser::BlocksParser", b.local_ty(0)):
             if any("std::path::Path" in b.local_ty(i) for i in range(1, b.argc + 1)):
                 pfp = b
-            elif any(b.local_ty(i).startswith("&std::ffi::OsString") for i in range(1, b.argc + 1)):
+            elif any(re.match(r"&(std::ffi::OsString|std::ffi::OsStr|str|std::string::String)$", b.local_ty(i)) for i in range(1, b.argc + 1)):
                 tpe = b
     # normalised views (pipelines / combinators expanded); the per-suffix lookup stays a call
     if pfp is not None:
@@ -165,12 +165,19 @@ def run(ctx, out, tier):
         # candidate suffix reaches the lookup unchanged
         inner = tpe.id if tpe is not None else None
         ALLOWED = [r"std::path::Path::file_name$", r"std::ffi::OsStr::to_str$", r"<impl str>::match_indices$", r"<impl str>::rmatch_indices$", r"Iterator::rev$", r"Iterator>?::next$",
-                   r"IntoIterator>?::into_iter$", r"Index<.*> for str>::index$|ops::Index::index$", r"OsString as std::convert::From<.*>>::from$", r"Try>?::branch$"]
+                   r"IntoIterator>?::into_iter$", r"Index<.*> for str>::index$|ops::Index::index$", r"OsString as std::convert::From<.*>>::from$", r"Try>?::branch$",
+                   r"std::ffi::OsStr::new$", r"AsRef<std::ffi::OsStr>>::as_ref$", r"HashMap::<K, V, S, A>::get$", r"Option::<T>::(map_or|unwrap_or)$", r"OsString::as_os_str$"]
         sites = [(bi, t) for bi, t in pfp.calls() if inner and (t.get("res") or "") == inner]
         if not sites and tpe is None:
             sites = [(bi, t) for bi, t in pfp.calls() if callee_matches(t, r"HashMap::<K, V, S, A>::get$")]
         for bi, t in sites:
-            labs = ctx.prov.read_operand(pfp, t["args"][0])
+            # the candidate: first argument of the per-suffix lookup, or the key of a direct table lookup
+            cand = t["args"][1] if callee_matches(t, r"HashMap::<K, V, S, A>::get$") and len(t["args"]) > 1 else t["args"][0]
+            labs = ctx.prov.resolve_upvars(pfp, ctx.prov.read_operand(pfp, cand))
+            if not P.has_call(labs, r"std::path::Path::file_name$"):
+                out.viol("C16.lookup", "C16.lookup|not-file-name", ctx.where(pfp, t["span"]),
+                         "a lookup candidate derives from [%s], not from the file's own name (`Path::file_name`): the directories a file lies in must not influence which grammar is chosen" % util.origins_text({l for l in labs if l[0] == "call"}, 5))
+                continue
             bad = sorted({l[1] for l in labs if l[0] == "call" and not any(re.search(a, l[1]) for a in ALLOWED)})
             if bad:
                 out.viol("C16.lookup", "C16.lookup|candidate-transformed", ctx.where(pfp, t["span"]),
@@ -322,6 +329,10 @@ def run(ctx, out, tier):
                     v += 1
                 else:
                     out.viol("C16.validate", "C16.validate|extensions-arg", ctx.where(main, t["span"]), "parse_blocks is not given the user's -E mappings")
+    # the name that decides the grammar is the file's own: the path a diff names must reach the lookup as
+    # git wrote it (one `b/` stripped, nothing else) - shared with C15/C01
+    from rules.C01 import check_prefix
+    check_prefix(ctx, out, rule="C16.prefix")
     out.inst("C16.validate", v, 5, ["-E value ∈ language_parsers().keys() else Err, before parsing"])
     shared.sh_main(ctx, out)
     return meta()
